@@ -30,7 +30,9 @@ def r4_entity_headers(ctx, M):
                     continue
                 a = arg[0]
                 ifr = r.atoms.get("get(IF_RANGE)")
-                has = is_agg(a) and a[3] == "Some" and any(h[0] == ("ENTITY",) for h in (agg_get(a, "0")[1] if agg_get(a, "0")[0] == "hdrs" else ()))
+                from .common import deref_final
+                pay = deref_final(r.o, agg_get(a, "0")) if is_agg(a) and a[3] == "Some" else None      # owned map, or a borrow of it
+                has = isinstance(pay, tuple) and bool(pay) and pay[0] == "hdrs" and any(h[0] == ("ENTITY",) for h in pay[1])
                 if ifr == "None" and not has:
                     ctx.violation("C06.R4", "C06.R4|missing", "without If-Range the entity's headers are not passed to the multipart parts", where=where(e))
                 pe = SM.parser_event(ctx, r)
